@@ -69,6 +69,7 @@ func (q *Queue) Insert(i interface{}) (bool, error) {
 	default:
 	}
 
+	verifPoint("coalesce.insert.checked", q)
 	ok := q.insert(i)
 
 	if ok {
@@ -103,6 +104,7 @@ func (q *Queue) Next(ctx context.Context) (interface{}, uint32, error) {
 		if valid {
 			return i, coalesced, nil
 		}
+		verifPoint("coalesce.next.empty", q)
 		// Wait for an insert or a close.
 		select {
 		case <-ctx.Done():
